@@ -106,7 +106,7 @@ CLAIMS.update({
          "type soundness accepted_programs_are_well_typed (induction over parse trees, every source text): whatever parser and typechecker "
          "accept has a typed tree obeying the rule predicate wtProg (exact argument/parameter types of a declared overload, int/bool operands, "
          "mutable assignment targets, return agreement, scalar non-empty array elements, cast table, no nested arrays). "
-         "Completeness w.r.t. a declarative typing relation is not proved; 72 rule programs and 1920 overload calls are executed.",
+         "Completeness w.r.t. a declarative typing relation is not proved; more than 800 rule programs and 1920 overload calls are executed.",
          "machine-checked proof (Lean 4) about a hand-written model + typed-tree correspondence", "6 C07"),
  'C10': ("proof", "Proof, partial. The front-end models are total Lean functions tied to the implementation on error class and position; "
          "parse_never_runs_out_of_fuel (induction over the 25 grammar functions, every source text): the parser model's explicit fuel is never "
@@ -130,11 +130,16 @@ CLAIMS.update({
          "Python: integer literals for every digit string, base and underscore placement; keyword/flavour classification of the whole "
          "keyword table; longest symbol match independent of the order among equal-length symbols (the source's set-order dependence); "
          "escape table; layout independence and span exactness (lex_of_layout, layout_independence, span_exact: for every source whose lines "
-         "are white-space-separated self-delimiting token texts with optional trailing comments and any line breaks, lex returns exactly "
-         "those tokens in order, each span covering exactly its text, by induction over lines and tokens; every symbol and every "
-         "non-keyword identifier is shown to be such a text). The model is tied by the lex suite (tokens, spans, error positions); an "
-         "independent integer-literal and escape oracle and the re-layout searcher run on the real lexer. Not proved: number, string and "
-         "character literals as layout pieces, and tokens adjacent without white space (re-layout searcher only).", "machine-checked proof (Lean 4) about a hand-written model + token-level correspondence", "6 C12"),
+         "are sequences of token texts, each preceded by a possibly EMPTY white-space separator and each reading as its token in front of the "
+         "rest of its line (ReadsAs), with optional trailing comments and any line breaks, lex returns exactly "
+         "those tokens in order, each span covering exactly its text, by induction over lines and tokens. ReadsAs is proved, with the token "
+         "value denoted, for every symbol (maximal munch: in front of any continuation of which no longer symbol is a prefix), every "
+         "keyword and identifier (plain, @ and ! flavoured; in front of any non-word character), every decimal / 0x / 0o / 0b literal with "
+         "single underscores between ASCII digits (in front of anything that does not continue the digit class), every string literal "
+         "with simple and \\xHH escapes and every plain ASCII character literal (in front of anything); so sources written without any "
+         "white space between tokens are covered). The model is tied by the lex suite (tokens, spans, error positions); an "
+         "independent integer-literal and escape oracle and the re-layout searcher run on the real lexer. Not proved: \\u{...} escapes and escaped character "
+         "literals as layout pieces, non-ASCII digits in literal pieces (re-layout searcher only).", "machine-checked proof (Lean 4) about a hand-written model + token-level correspondence", "6 C12"),
  'C16': ("proof", "Proof of (a) and (c): for every well-formed block, exit modes lacking NONE imply the block cannot complete normally, and "
          "whatever follows such a prefix is unreachable - against an abstract control-flow semantics in which every condition may go either "
          "way and every statement that evaluates an expression may be defeated (induction over derivations, all programs). The analysis "
